@@ -1,6 +1,7 @@
 //! vh — the Rust side of the binding between ClapSpec (TLA+) and clap.
 //! Every subcommand reads/writes NDJSON or a JSON report; see /verif/DESIGN.md §3.
 mod def;
+mod hist;
 mod lex;
 mod parse;
 mod util;
@@ -43,6 +44,8 @@ fn main() {
         "parse-record" => parse::parse_record(&arg(&args, "--defs", ""), seed, n, arg(&args, "--maxlen", "12").parse().unwrap(), &out),
         "spell-replay" => parse::spell_replay(&arg(&args, "--defs", ""), &input, &out, &div),
         "spell-record" => parse::spell_record(&arg(&args, "--defs", ""), seed, n, arg(&args, "--maxelems", "6").parse().unwrap(), &out),
+        "hist-replay" => hist::hist_replay(&arg(&args, "--defs", ""), &input, &out, &div),
+        "hist-record" => hist::hist_record(&arg(&args, "--defs", ""), seed, n, arg(&args, "--maxops", "40").parse().unwrap(), &out),
         "c04-record" => values::c04_record(seed, n, &out),
         "c20-replay" => wrap::c20_replay(&input, &out, &div),
         "c20-record" => wrap::c20_record(seed, n, arg(&args, "--maxlen", "120").parse().unwrap(), &out),
